@@ -583,12 +583,14 @@ def sampling_search(ctx):
         distinct = list(dict.fromkeys(qs))
         born = marginal(psi, n, distinct)
         ok = np.array_equal(sm, np.asarray(r.symplectic_matrix))
+        if S.ndim != 2 or S.shape[1] != len(qs):  # one column per requested qubit
+            ok = False
         for row in S:
             val = {}
             for q, b in zip(qs, row):
                 if val.setdefault(q, int(b)) != int(b):
                     ok = False
-            if born.get(tuple(val[q] for q in distinct), 0.0) < 1e-9:
+            if born.get(tuple(val.get(q, -1) for q in distinct), 0.0) < 1e-9:
                 ok = False
         ctx.case(("repeat-measure", n, tuple(gate_src(g) for g in gs), tuple(qs)))
         if not ok:
